@@ -149,6 +149,24 @@ def run(sort="DOUBLE", group="arith", budget_s=60, known_labels=(), shard=0, nsh
             for i in ints:
                 cases.append(("fpToFP[sbv]", rm, i, None))
                 cases.append(("fpToFPUnsigned", rm, i, None))
+    if group == "literal":
+        # the claripy -> Z3 translation of every boundary literal (BackendZ3.FPV): the numeral Z3 receives must be the literal, bit for bit
+        # (sign of zero included), NaN as NaN.  The folding comparisons above never exercise it: both of their sides bypass it.
+        zb = claripy.backends.z3
+        for a in ops_:
+            evals += 1
+            distinct += 1
+            wit = {"op": "FPV", "sort": sort, "a": repr(a)}
+            try:
+                zt = z3.simplify(zb.convert(claripy.FPV(a, csort)))
+                ctx2 = zt.ctx
+                ok = math.isnan(a) if z3.is_true(z3.simplify(z3.fpIsNaN(zt))) else (not math.isnan(a) and z3.simplify(z3.fpToIEEEBV(zt)).as_long() == _bits(a, sort))
+            except Exception as ex:  # noqa
+                rec("fp.literal/z3-translation-raises", f"backends.z3.convert(FPV({a!r}, {sort})) raised {type(ex).__name__}: {ex}", wit)
+                continue
+            if not ok:
+                rec("fp.literal/z3-translation", f"backends.z3.convert(FPV({a!r}, {sort})) = {zt}: not the literal (bits {_bits(a, sort):#x})", wit)
+        cases = []
     for idx, (op, rm, a, b) in enumerate(cases):
         if idx % nshards != shard:
             continue
